@@ -1,6 +1,7 @@
 package rules
 
 import (
+	"os"
 	"fmt"
 	"go/token"
 	"sort"
@@ -271,7 +272,7 @@ func resultsCellOf(engine *ssa.Call) ssa.Value {
 func c17History(c *Ctx, run *ssa.Function) {
 	r := c.R
 	fk := "cli.searchCmd.Run"
-	tag := func(in ssa.Instruction) []string {
+	base := func(in ssa.Instruction) []string {
 		call, ok := in.(*ssa.Call)
 		if !ok {
 			return nil
@@ -286,6 +287,60 @@ func c17History(c *Ctx, run *ssa.Function) {
 			return []string{"engine"}
 		}
 		return nil
+	}
+	// a helper of package cli that records the search (AddEntry and Save exactly
+	// once on each of its exits) counts as both events at its call site; one
+	// that records on some exits only counts twice, which the exactly-once
+	// test below rejects
+	var helper *ssa.Call
+	sum := map[*ssa.Function][]string{}
+	tag := func(in ssa.Instruction) []string {
+		if t := base(in); t != nil {
+			return t
+		}
+		call, ok := in.(*ssa.Call)
+		if !ok {
+			return nil
+		}
+		g := call.Common().StaticCallee()
+		if g == nil || g.Blocks == nil || g.Pkg == nil || g.Pkg.Pkg.Path() != cliPkg {
+			return nil
+		}
+		if t, done := sum[g]; done {
+			if len(t) > 0 {
+				helper = call
+			}
+			return t
+		}
+		sum[g] = nil
+		var out []string
+		any := false
+		for _, ev := range []string{"AddEntry", "Save"} {
+			all, none := true, true
+			for _, m := range pathev.New(base, nil).Exits(g) {
+				e := m.Get(ev)
+				if !e.ExactlyOnce() {
+					all = false
+				}
+				if !e.Never() {
+					none = false
+				}
+			}
+			switch {
+			case none:
+			case all:
+				out = append(out, ev)
+				any = true
+			default:
+				out = append(out, ev, ev)
+				any = true
+			}
+		}
+		sum[g] = out
+		if any {
+			helper = call
+		}
+		return out
 	}
 	eng := pathev.New(tag, nil)
 	nThrough := 0
@@ -309,7 +364,7 @@ func c17History(c *Ctx, run *ssa.Function) {
 		if !ok {
 			return
 		}
-		for _, t := range tag(call) {
+		for _, t := range base(call) {
 			switch t {
 			case "engine":
 				engine = call
@@ -320,13 +375,45 @@ func c17History(c *Ctx, run *ssa.Function) {
 			}
 		}
 	})
+	// when the recording lives in a helper, AddEntry and Save are looked up
+	// there and their arguments are read back through the helper's parameters
+	argOf := func(v ssa.Value) ssa.Value { return v }
+	first := ssa.Instruction(nil)
+	if (add == nil || save == nil) && helper != nil {
+		h := helper.Common().StaticCallee()
+		ssau.ForEachInstr(h, false, func(in ssa.Instruction) {
+			if call, ok := in.(*ssa.Call); ok {
+				switch ssau.CallName(call) {
+				case histMeth + "AddEntry":
+					add = call
+				case histMeth + "Save":
+					save = call
+				}
+			}
+		})
+		argOf = func(v ssa.Value) ssa.Value {
+			for i, p := range h.Params {
+				if v == ssa.Value(p) && i < len(helper.Common().Args) {
+					return helper.Common().Args[i]
+				}
+			}
+			return v
+		}
+		first = helper
+	}
 	if engine == nil || add == nil || save == nil {
 		r.Unknown("O-5", fk+"#calls", c.P.Pos(run.Pos()), "engine/AddEntry/Save call not found")
 		return
 	}
-	r.Check(ssau.Dominates(engine, add) && ssau.Dominates(add, save) && add.Common().Args[0] == save.Common().Args[0], "O-5", fk+"#order", c.P.Pos(add.Pos()), "engine < AddEntry < Save on the same history object", "AddEntry/Save are not ordered after the engine call on the same history object")
+	if first == nil {
+		first = add
+	}
+	if os.Getenv("WTF_DEBUG_C17") != "" {
+		fmt.Println("DEBUG c17: engine", engine, "first", first, "add", add, "save", save, "dom", ssau.Dominates(engine, first), ssau.Dominates(add, save), add.Common().Args[0] == save.Common().Args[0])
+	}
+	r.Check(ssau.Dominates(engine, first) && ssau.Dominates(add, save) && add.Common().Args[0] == save.Common().Args[0], "O-5", fk+"#order", c.P.Pos(add.Pos()), "engine < AddEntry < Save on the same history object", "AddEntry/Save are not ordered after the engine call on the same history object")
 	// query argument: the validated query, same value as handed to the engine
-	q := add.Common().Args[1]
+	q := argOf(add.Common().Args[1])
 	validated := false
 	if ex, ok := q.(*ssa.Extract); ok && ex.Index == 0 {
 		if vc, ok := ex.Tuple.(*ssa.Call); ok && ssau.CallName(vc) == validPkg+".ValidateQuery" {
@@ -337,15 +424,15 @@ func c17History(c *Ctx, run *ssa.Function) {
 	r.Check(validated && sameAsEngine, "O-5", fk+"#AddEntry-query", c.P.Pos(add.Pos()), "records ValidateQuery's result, the same value the engine searched", "the recorded query is not the validated query handed to the engine")
 	// count argument: len(results cell) with no later store to the cell
 	cell := resultsCellOf(engine)
-	cnt := add.Common().Args[2]
+	cnt := argOf(add.Common().Args[2])
 	okCnt := false
-	if lc, ok := cnt.(*ssa.Call); ok && ssau.CallName(lc) == "builtin.len" && cell != nil {
-		if u, ok := lc.Common().Args[0].(*ssa.UnOp); ok && u.X == cell {
+	if lc, ok := cnt.(*ssa.Call); ok && ssau.CallName(lc) == "builtin.len" {
+		of := argOf(lc.Common().Args[0])
+		if u, ok := of.(*ssa.UnOp); ok && cell != nil && u.X == cell {
 			okCnt = true
 		}
-	} else if cell == nil {
-		// results held in an SSA value (no cell): len(engine result)
-		if lc, ok := cnt.(*ssa.Call); ok && ssau.CallName(lc) == "builtin.len" && lc.Common().Args[0] == ssa.Value(engine) {
+		if cell == nil && of == ssa.Value(engine) {
+			// results held in an SSA value (no cell): len(engine result)
 			okCnt = true
 		}
 	}
@@ -354,7 +441,7 @@ func c17History(c *Ctx, run *ssa.Function) {
 		late := false
 		for _, ref := range *cell.Referrers() {
 			if st, ok := ref.(*ssa.Store); ok && st.Addr == cell {
-				if ssau.Dominates(add, st) || ssau.Reachable(add.Block(), st.Block(), nil) && st.Block() != add.Block() {
+				if ssau.Dominates(first, st) || ssau.Reachable(first.Block(), st.Block(), nil) && st.Block() != first.Block() {
 					late = true
 				}
 			}
